@@ -233,6 +233,13 @@ def gen_cases(ctx, n):
             c["max"] = rng.choice([0, 1, 3])
             for m in c["models"]:
                 m["bad"], m["vram"] = False, 10 ** 9
+            if rng.random() < 0.6:
+                # the keep-alive elapses, the timer fires and the expired event is being handled exactly while the next
+                # request for the model is between the lookup and the hand-over (expire_hot steering)
+                c["expire_hot"], c["finish_early"], c["pfail"], c["pint"] = 1.0, 0.9, 0.0, 0.9
+                c["passive"], c["sequential"], c["seq_keep"], c["no_ticks"] = True, True, True, True
+                for q in c["reqs"]:
+                    q["m"], q["ka"] = 0, rng.choice([50, 1000])
         elif r < 0.62:
             # reuse: every request is compatible with the runner of its model, nothing fails, nothing expires
             c = base_case(i, rng, klass="reuse")
@@ -327,6 +334,9 @@ def gen_cases(ctx, n):
                 if rng.random() < 0.2:
                     c["models"][1].update({"name": "m1", "nofa": False})      # a model that can: the quantised cache is right
                 c["force_direct"] = True
+        if rng.random() < 0.4:
+            # equal option values in distinct allocations: every request carries use_mmap in a pointer of its own
+            c["mmap"] = rng.choice(["true", "false"])
         if rng.random() < 0.35:
             # the limits are spelled the way env files and container runtimes pass them: quotes, padding, leading zeros
             sp = {}
